@@ -612,7 +612,7 @@ def f6_increase_corrections(ctx) -> None:
                           "increases are judged against a stale gap and classes are frozen (declared pumping) that can still be bounded")
         elif good:
             ctx.ok("F6", "the gap is recomputed after the histogram changed (when its start moved)")
-        elif not extra:
+        else:
             ctx.violation("F6", cg[0], "_correct_gap() after an increase must run whenever preimage_gap(self._gap_size) differs from the current gap start")
     else:
         ctx.violation("F6", inc, "after f changes the gap must be re-examined (_correct_gap() when preimage_gap(_gap_size) moved): held-back rules are released only there")
